@@ -234,6 +234,11 @@ class Check(FormulaCheck):
                 exp *= j
             self.expect('C17/FACTDOUBLE', finite(r) and Fr(r) == exp, n=n, got=r if not isinstance(r, int) or r < 10 ** 30 else '(big)')
             a, b = rnd.randint(-10 ** 6, 10 ** 6), rnd.randint(-10 ** 6, 10 ** 6)
+            if rnd.random() < 0.3:
+                # integer parts of every size a double holds exactly: up to sixteen digits (2**53), of either sign, with a non-zero last digit
+                big = lambda: rnd.choice([1, -1]) * rnd.choice([rnd.randint(10 ** 15, 2 ** 53), 2 ** 53 - rnd.randint(0, 9), 10 ** 15 + rnd.randint(1, 9), rnd.randint(10 ** 9, 10 ** 15),
+                                                                  rnd.randint(2 ** 39, 2 ** 41), 999999999999999, 1000000000000001])
+                a, b = rnd.choice([(big(), big()), (big(), rnd.randint(-9, 9)), (0, big()), (big(), 0)])
             re_, im_ = self.ev('IMREAL(COMPLEX(v_a,v_b))', v_a=a, v_b=b), self.ev('IMAGINARY(COMPLEX(v_a,v_b))', v_a=a, v_b=b)
             self.expect('C17/COMPLEX-parts', re_ == a and im_ == b, a=a, b=b, got=(re_, im_))
             rec.sample({'x': x, 'y': y})
